@@ -488,7 +488,7 @@ func checkC05(c *Ctx, r *Report) {
 		o := r.Add("C05-sid", fnName(fn), "remote SID without B2 refused", c.pos(fn.Pos()))
 		good := false
 		for _, ret := range returnsOf(fn) {
-			ld, ok := ret.Results[1].(*ssa.UnOp)
+			ld, ok := resOf(ret, 1).(*ssa.UnOp)
 			if !ok || !strings.HasSuffix(pathOf(ld), "fbb.ErrNoFB2") {
 				continue
 			}
